@@ -494,11 +494,17 @@ class Replay:
                     # state just as well: every second representative is a queried one, so that continuations (arm
                     # changes, training, warm start) are also exercised on bandits that predicted before
                     try:
-                        obj.predict(self.ctx(1, obj))
-                        obj.predict_expectations(self.ctx(3, obj))
+                        if "X" in (edge["l"] if op in ("predict", "predict_expectations") else {}):
+                            raise KeyError
+                        for q in ({"op": "predict", "m": 1}, {"op": "predict_expectations", "m": 3}):
+                            b.call(obj, q, self.feat)          # through the binding: same containers as every other query
                         self.stats["queried_representatives"] = self.stats.get("queried_representatives", 0) + 1
                     except Exception:  # noqa
-                        pass
+                        try:
+                            obj.predict(self.ctx(1, obj))
+                            obj.predict_expectations(self.ctx(3, obj))
+                        except Exception:  # noqa
+                            pass
                 self.objs[tkey] = obj
                 self.pure[tkey] = pure
                 self.fits[tkey] = nfits
